@@ -124,6 +124,10 @@ ForeachRules(mm, s, e) ==
   ELSE (IF bad = {} /\ missing = {} THEN {<<"C13", "failure-reported-although-every-item-succeeded", s>>} ELSE {})
        \cup (IF errIdx # {idx(k) : k \in bad} \cup missing THEN {<<"C13", "failure-report-does-not-identify-exactly-the-failing-items", s>>} ELSE {})
        \cup (IF datIdx # {idx(k) : k \in good} THEN {<<"C13", "failure-report-does-not-carry-the-results-of-the-other-items", s>>} ELSE {})
+       \* "with their messages": an item whose run returned an error is reported with THAT error's text
+       \cup (IF \E k \in bad : ~subs[k].ok /\ subs[k].err # "nil" /\ <<<<"errors", idx(k)>>, subs[k].err>> \notin obs
+                                /\ \E o \in obs : o[1] = <<"errors", idx(k)>>
+              THEN {<<"C13", "failure-report-gives-an-item-another-message-than-its-run-returned", s>>} ELSE {})
 
 OnFItem(mm, e) ==
   CASE e.op = "acquire" ->
